@@ -100,8 +100,9 @@ def t_generate(E):
     E.prove("C35.Distribution.generate.mask_true_equals_unmasked_and_false_equals_unconstrained", E.And(
         E.eq(E.method(tr, "get_retval"), UVal(z3.If(present, E.I.to_u(val), sampled.t), "value")),
         E.eq(w, SReal(z3.If(present, TD.density(E.I, d, val, a), 0)))))
+    # (C35: with a False flag the site is unconstrained - the recorded score is that of the simulated value, as in simulate)
     E.prove("C24.ExactDensity.generate.score_is_log_prob_of_value",
-            E.eq(E.method(tr, "get_score"), lp(E, d, E.method(tr, "get_retval"), a)))
+            E.eq(E.method(tr, "get_score"), lp(E, d, E.method(tr, "get_retval"), a)), also=["C35"])
     E.refutable("dist.generate", E.eq(w, E.method(tr, "get_score")))
 
 
